@@ -74,7 +74,16 @@ impl Mode {
                     reg => Some(self.get_register_expression(reg, instruction)?),
                 };
 
-                let scale = Expr::constant(Constant::new(mem.scale as i64 as u64, self.bits()));
+                // The effective address is computed in the address size, which the registers
+                // name (the address-size override selects 32-bit registers in 64-bit mode, 16-bit
+                // ones in 32-bit mode), and is then zero-extended.
+                let address_bits = match (&base, &index) {
+                    (Some(base), _) => base.bits(),
+                    (None, Some(index)) => index.bits(),
+                    (None, None) => self.bits(),
+                };
+
+                let scale = Expr::constant(Constant::new(mem.scale as i64 as u64, address_bits));
 
                 let si = match index {
                     Some(index) => Some(Expr::mul(index, scale)?),
@@ -92,15 +101,21 @@ impl Mode {
                 let op = if let Some(op) = op {
                     match mem.disp.cmp(&0) {
                         Ordering::Greater => {
-                            Expr::add(op, expr_const(mem.disp as u64, self.bits()))?
+                            Expr::add(op, expr_const(mem.disp as u64, address_bits))?
                         }
                         Ordering::Less => {
-                            Expr::sub(op, expr_const(mem.disp.unsigned_abs(), self.bits()))?
+                            Expr::sub(op, expr_const(mem.disp.unsigned_abs(), address_bits))?
                         }
                         Ordering::Equal => op,
                     }
                 } else {
-                    expr_const(mem.disp as u64, self.bits())
+                    expr_const(mem.disp as u64, address_bits)
+                };
+
+                let op = if address_bits < self.bits() {
+                    Expr::zext(self.bits(), op)?
+                } else {
+                    op
                 };
 
                 match mem.segment {
